@@ -73,7 +73,8 @@ def worker_main(argv):
         if engine == 'xh':
             from . import xh
             r = xh.explore(check['fn'], part, budget_s=share, per_path_s=check.get('per_path_s', 20.0),
-                           known_sigs=ksigs, samples_wanted=check.get('samples', 2))
+                           known_sigs=ksigs, samples_wanted=check.get('samples', 2),
+                           stop_on_violation=not os.environ.get('VERIF_COLLECT'))
         else:
             r = check['run'](part, share, tier, ksigs)
         r['check'] = cname
@@ -126,7 +127,7 @@ def run_check(pid, tier, seed):
             parts = check['parts'](tier) if callable(check['parts']) else check['parts']
             budget = check['budget'][tier]
             maxw = check.get('max_workers', NCPU)
-            for ci, ch in enumerate(chunk(list(parts), maxw * 4)):
+            for ci, ch in enumerate(chunk(list(parts), maxw * 8)):
                 jobs.append((check, ch, budget))
         # schedule: ceil(jobs/NCPU) rounds; budgets are per job
         q = queue.Queue()
